@@ -359,7 +359,8 @@ def fold(blocks, visit):
             elif op == "logout":
                 g.user[sid] = None if ok else "?"
             elif op == "destroy":
-                if any(e[0] == "del" and len(e) == 2 for e in b.evs):
+                # the session is over when Destroy says so (ok), or when its record was in fact deleted
+                if ok or any(e[0] == "del" and len(e) == 2 for e in b.evs):
                     g.end(sid)
         elif k == "logoutuser":
             uid = _unq(b.tok[1])
